@@ -6,3 +6,6 @@ From TucModel Require Import Base.Bytes Model.Bounds Tie.RsPrelude.
 
 Definition model_from_vec (l : list bof) : rs ublist :=
   match from_vec l with Some u => Ret u | None => Panic end.
+
+(** a [UserBoundsList] derefs to its vector: iterating it visits the items *)
+Global Instance iter_ublist : Iterable ublist bof := items.
